@@ -667,6 +667,12 @@ impl Property for C19Prop {
             (format!("{PRELUDE}match ({ex}) {{ ({ey}), \"other\" => true, => false, }}"), equal, "match-value-first-candidate"),
             (format!("{PRELUDE}l := {ex}; m := match l {{ 12345, [12345], ({ey}) => true, 54321 => false, => false, }}; m"), equal, "match-value-bound-constant"),
             (format!("{PRELUDE}match ({ex}) {{ 12345 => false, ({ey}) => true, => false, }}"), equal, "match-value-second-arm"),
+            // the candidate among four to six arms led by scalar literals (a match may be compiled into a
+            // table; the table must agree with ==), scrutinee constant and computed
+            (format!("{PRELUDE}match idf({ex}) {{ 918273 => false, \"q#other\" => false, 1234.5 => false, ({ey}) => true, 777 => false, => false, }}"), equal, "match-among-literal-arms"),
+            (format!("{PRELUDE}match ({ex}) {{ 918273 => false, \"q#other\" => false, 1234.5 => false, 31 => false, ({ey}) => true, => false, }}"), equal, "match-among-literal-arms"),
+            (format!("{PRELUDE}match idf({ex}) {{ ({ey}) => true, 918273 => false, \"q#other\" => false, 1234.5 => false, 777 => false, => false, }}"), equal, "match-among-literal-arms"),
+            (format!("{PRELUDE}pickm := (v: any) -> bool {{ return match v {{ 918273 => false, 8.25 => false, \"q#other\" => false, ({ey}) => true, 777, 778 => false, => false, }}; }}; [pickm({ex}), pickm(918273), pickm({ex})]"), equal, "match-table-calls"),
             (format!("{PRELUDE}[{ex}] == [{ey}]"), equal, "inside-array"),
             (format!("{PRELUDE}(1, {ex}) == (1, {ey})"), equal, "inside-tuple"),
             (format!("{PRELUDE}struct{{k := {ex}}} == struct{{k := {ey}}}"), equal, "inside-struct"),
@@ -689,6 +695,8 @@ impl Property for C19Prop {
             stats.eval();
             let expected = if how == "runtime-triple" {
                 lit::tuple(vec![json!(want), json!(!want), json!(want)])
+            } else if how == "match-table-calls" {
+                json!([want, false, want])
             } else {
                 json!(want)
             };
